@@ -1006,6 +1006,10 @@ namespace sim
 
 	} // asio
 
+#ifdef LIBSIMULATOR_VERIF
+	extern void (*verif_step_hook)(int kind);
+#endif
+
 	struct SIMULATOR_DECL simulation
 	{
 		// it calls fire() when a timer fires
